@@ -11,11 +11,14 @@ PROP = {
             "non-trivial; distinct = distinct input line. "
             "errtell: the real clientError / serverError called with an error of every class the code distinguishes "
             "(plain error; *trzszError with errType \"\", fail, FAIL, EXIT, panic, colon, SUCC x trace flag x message is / is not "
-            "the text of errStoppedAndDeleted) x stopAndDelete flag x a created file exists or not, 232 cases: the lines "
-            "written to the peer (type, with or without the deleted names, before or after cleanInput / serverExit), whether "
+            "the text of errStoppedAndDeleted) x stopAndDelete flag x a created file exists or not x tunnel state (none / a "
+            "connection accepted but the ACT not read = the window / connected), 696 cases: the lines written to the peer (type, "
+            "with or without the deleted names, before or after cleanInput / serverExit, on the writer in force or on the accepted "
+            "tunnel connection), whether "
             "the terminal was reset and whether the created file was deleted, vs the extracted interpreter run on the "
             "regenerated skeleton; direct oracles: a side whose error is not the peer's own EXIT/fail/FAIL line writes exactly "
-            "one fail/FAIL line after cleanInput, a side whose error is such a line writes nothing. "
+            "one fail/FAIL line after cleanInput on the writer in force, the server exactly in the tunnel window the same line once "
+            "more on the accepted tunnel connection (never outside it), a side whose error is such a line writes nothing. "
             "e2e-hang: the real client (filter) against the real trz/tsz children with a fault injected at a sampled write boundary after the handshake has begun: one direction falls silent, one write is discarded, the server's input is closed, the source shrinks or disappears mid-transfer, the destination directory disappears, the destination file accepts no byte (a link to /dev/full opened with overwrite: ENOSPC on every write); oracles: both sides return within 3 x timeout + 6 s, and 1.5 s after all runs no goroutine with a trzszTransfer / sendDataWriter / recvDataReader frame is left in the client process.",
     "trusted": [
         "skeleton translator go/cmd/gen/skel_*.go: syntactic; classification table of wire/file calls (skTable); "
@@ -61,9 +64,11 @@ TEXT = {
             "further steps and ends with every goroutine exited (well-formed nets: all three, the send net only since the fix of "
             "the buffer-size probing wait, a real goroutine leak found by this check: KNOWN_FINDINGS fixed bufinit-wait-leak). "
             "(3) A side that can still talk tells its peer why: the decision skeletons of clientError / serverError and of the "
-            "error predicates they consult are regenerated and interpreted for all 160 error classes: cleanInput first; exactly one "
-            "fail/FAIL line (fail with the deleted names after a stop-and-delete that deleted something, else by the traceback "
-            "flag) unless the error is the peer's own EXIT/fail/FAIL line, then none; the server resets the terminal exactly once, "
+            "error predicates they consult are regenerated and interpreted for all 320 error classes x environments: cleanInput first; "
+            "exactly one fail/FAIL line on the writer in force (fail with the deleted names after a stop-and-delete that deleted "
+            "something, else by the traceback flag) and, exactly when the server has accepted a tunnel connection but not yet read "
+            "the ACT, the same line once more on that connection (a client on either path gets exactly one), unless the error is the "
+            "peer's own EXIT/fail/FAIL line, then none; the server resets the terminal exactly once, "
             "last; the call sites in filter.go, trz.go, tsz.go are pinned. "
             "Tied to the code by regenerating the skeletons, by translator sanity counts, by calling the real clientError / "
             "serverError on every error class, and by fault injection on the real client and server with hang and "
